@@ -7,8 +7,9 @@
             | 7 | 8 | 9 lvl | 10 lvl | 11 from | 12 | 13 | 14  (PCreate .. PCxxRelease in the order of LifeDefs.prim)
             | 20 shape has_src [path] path                  (HRet; shape = index in all_rshapes)
             | 21 rv [shape] path path has [path] has [path] (HBind; rv 0 = no, 1 = yes, 2 = that of the shape; the two optional save places)
+            | 15 path n | 16 path                           (PWrite, PRead)
             | 22 path                                       (HReseat)
-   output ::= items separated by spaces: a number (Live n), UAF, BAD<code>, FAULT; "PARSE" if the line is malformed *)
+   output ::= items separated by spaces: a number (Live n), V<n> (Value n), UAF, BAD<code>, FAULT; "PARSE" if the line is malformed *)
 From Coq Require Import List Bool Arith String ZArith.
 From ChaiV Require Import StrUtil LifeDefs.
 Import ListNotations.
@@ -55,6 +56,8 @@ Definition parse_op (l : list nat) : option (hop * list nat) :=
   | 12 :: r => Some (HPrim PCheckpoint, r)
   | 13 :: r => Some (HPrim PEngineEnd, r)
   | 14 :: r => Some (HPrim PCxxRelease, r)
+  | 15 :: r => match parse_path r with Some (p, n :: r1) => Some (HPrim (PWrite p n), r1) | _ => None end
+  | 16 :: r => one PRead r
   | 20 :: sh :: has :: r =>
       match shape_of sh with
       | None => None
@@ -119,6 +122,7 @@ Fixpoint nats_of (ws : list string) : option (list nat) :=
 Definition show_event (e : event) : list string :=
   match e with
   | Live n => [dec_of_nat n]
+  | Value n => ["V" ++ dec_of_nat n]
   | UseAfterFree _ => ["UAF"]
   | BadOp c => ["BAD" ++ dec_of_nat c]
   | RcUnderflow _ => ["FAULT"]
